@@ -1484,30 +1484,53 @@ fn merge_v_slots(props: &mut Vec<PropOrSpread>, slots: Option<Box<Expr>>) {
 }
 
 fn inject_define_component_option(call: &mut CallExpr, name: &'static str, value: Expr) {
-    let options = call.args.get_mut(1);
-    if options
-        .as_ref()
-        .and_then(|options| options.spread)
-        .is_some()
-    {
+    // with a spread among the first two arguments we can't tell which one is the options
+    if call.args.iter().take(2).any(|arg| arg.spread.is_some()) {
         return;
     }
 
-    match options.map(|options| &mut *options.expr) {
+    let is_named = |key: &PropName| match key {
+        PropName::Ident(ident) => ident.sym == name,
+        PropName::Str(str) => str.value == name,
+        _ => false,
+    };
+
+    match call.args.get_mut(1).map(|options| &mut *options.expr) {
         Some(Expr::Object(object)) => {
-            if !object.props.iter().any(|prop| {
-                prop.as_prop()
-                    .and_then(|prop| prop.as_key_value())
-                    .and_then(|key_value| key_value.key.as_ident())
-                    .map(|ident| ident.sym == name)
-                    .unwrap_or_default()
-            }) {
-                object
+            let defined = object.props.iter().any(|prop| match prop {
+                PropOrSpread::Prop(prop) => match &**prop {
+                    Prop::Shorthand(ident) => ident.sym == name,
+                    Prop::KeyValue(KeyValueProp { key, .. })
+                    | Prop::Getter(GetterProp { key, .. })
+                    | Prop::Method(MethodProp { key, .. }) => is_named(key),
+                    _ => false,
+                },
+                PropOrSpread::Spread(..) => false,
+            });
+            if !defined {
+                // keep the inferred option underneath anything a spread or a computed
+                // key of the user's literal may supply
+                let index = object
                     .props
-                    .push(PropOrSpread::Prop(Box::new(Prop::KeyValue(KeyValueProp {
+                    .iter()
+                    .position(|prop| match prop {
+                        PropOrSpread::Spread(..) => true,
+                        PropOrSpread::Prop(prop) => matches!(
+                            &**prop,
+                            Prop::KeyValue(KeyValueProp {
+                                key: PropName::Computed(..),
+                                ..
+                            })
+                        ),
+                    })
+                    .unwrap_or(object.props.len());
+                object.props.insert(
+                    index,
+                    PropOrSpread::Prop(Box::new(Prop::KeyValue(KeyValueProp {
                         key: PropName::Ident(quote_ident!(name)),
                         value: Box::new(value),
-                    }))));
+                    }))),
+                );
             }
         }
         Some(..) => {
